@@ -1669,7 +1669,12 @@ func (x *Explorer) immutable(e ast.Expr, depth int) bool {
 		case *types.Const, *types.Nil:
 			return true
 		case *types.Var:
-			if o.IsField() || o.Pkg() == nil || o.Parent() == o.Pkg().Scope() || x.unstable[o] {
+			if o.Pkg() != nil && !o.IsField() && o.Parent() == o.Pkg().Scope() {
+				// a package-level variable that only its declaration gives a value (and that is of a type no
+				// method call can change in place: a reflect.Type, a basic value)
+				return x.P.ConstGlobal(o) && constKind(o.Type())
+			}
+			if o.IsField() || o.Pkg() == nil || x.unstable[o] {
 				return false
 			}
 			defs, isParam := x.defsOf(o)
@@ -1846,4 +1851,20 @@ func (x *Explorer) composite(e ast.Expr, st *State) tri {
 		}
 	}
 	return unknown
+}
+
+// constKind: values of the type cannot be changed through the variable without assigning to it (basic types,
+// reflect.Type and other interface values holding immutable descriptors are the cases that occur; maps, slices,
+// pointers and structs are left out).
+func constKind(t types.Type) bool {
+	switch u := t.Underlying().(type) {
+	case *types.Basic:
+		return true
+	case *types.Interface:
+		if n := NamedOf(t); n != nil && n.Obj().Pkg() != nil && n.Obj().Pkg().Path() == "reflect" && n.Obj().Name() == "Type" {
+			return true
+		}
+		_ = u
+	}
+	return false
 }
